@@ -101,6 +101,21 @@ def check_loop(ctx, key):
     v0 = sl.prelude_assign('current_volume')
     if v0 is None or src(v0) != 'v.get_volume()':
         problems.append('initial volume is %s' % (src(v0) if v0 is not None else None))
+    # the dt queue (the clock of the growth steps) starts one step after the simulation's initial time: growth and the division test run
+    # from the start of the simulation, not from the first requested time point
+    clocks = set()
+    for n in ast.walk(sl.loop):
+        if isinstance(n, ast.AugAssign) and isinstance(n.op, ast.Add) and src(n.value) == 'delta_t' and src(n.target).startswith('next_'):
+            clocks.add(src(n.target))
+    if len(clocks) != 1:
+        problems.append('the clock of the growth steps was not found (%s)' % sorted(clocks))
+    else:
+        c0 = sl.prelude_assign(list(clocks)[0])
+        t0 = sl.prelude_assign('current_time')
+        c_txt = src(c0).replace(' ', '') if c0 is not None else None
+        t_txt = src(util.strip_cast(t0)).replace(' ', '') if t0 is not None else None
+        if c_txt not in ('delta_t+current_time', 'current_time+delta_t') or t_txt != 'sim.get_initial_time()':
+            problems.append("the first growth step is scheduled at %s with current_time = %s, expected the interface's initial time + delta_t" % (c_txt, t_txt))
     ctx.ob('R11.2-volume-writers', key, not problems, sl.where,
            'the volume starts at v.get_volume() and changes only by += v.get_volume_step(state, params, current_time, current_volume, delta_t), delta_t = sim.get_dt()',
            '; '.join(problems))
